@@ -19,7 +19,21 @@ import (
 
 func c06Frame(c *sim.Ctx) (frame []byte, what string) {
 	t := c.T
-	switch t.Pick(5, 3, 2, 3) {
+	switch t.Pick(5, 3, 2, 3, 2, 2) {
+	case 4: // a truthful header whose type nibble does not match the body (e.g. a PINGREQ that carries bytes)
+		cfg := specCfg(c)
+		cfg.NoHuge = true
+		f, _ := ref.Encode(gen.Packet(t, cfg))
+		f = append([]byte{}, f...)
+		f[0] = byte(t.Int(16))<<4 | f[0]&0x0f
+		if t.Bool(1, 2) {
+			f[0] = byte(t.Int(256))
+		}
+		return f, "type-nibble-swapped"
+	case 5: // arbitrary body behind a truthful header of any type
+		n := t.Int(24)
+		f := ref.AppendVarint([]byte{byte(t.Int(256))}, uint32(n))
+		return append(f, t.Bytes(n)...), "random-body"
 	case 1: // real encoder
 		acfg := apiCfg(c, true)
 		acfg.NoHuge = true
@@ -129,7 +143,7 @@ func runC06(c *sim.Ctx) *sim.Violation {
 var C06 = &sim.Scenario{
 	ID:    "C06",
 	Level: "exploration",
-	Rule: "one case = a stream of 1..8 frames (valid stub frames in any style, frames from the real encoder, remaining-length-0 frames incl. type 0, content-malformed frames whose header is truthful) " +
+	Rule: "one case = a stream of 1..8 frames (valid stub frames in any style, frames from the real encoder, remaining-length-0 frames incl. type 0, content-malformed frames whose header is truthful: damaged bodies, every type nibble on a foreign body - e.g. a PINGREQ that carries bytes -, random bodies) " +
 		"followed by 0..16 trailing bytes (some shaped like a PUBLISH header), read by successive ReadPacket calls on one simulated link that counts bytes per call; contiguous availability, stream end as data+EOF or EOF-after. " +
 		"distinct_nontrivial counts distinct sequences of (type, accepted/rejected, remaining-length size class).",
 	Assumptions: []string{
